@@ -219,6 +219,7 @@ def ltf_plan(**args):
         L_j = int(L_arr[j])
         L_arr[j] = L_j
         averages = int(round_half_up(((N - L_j) / (1 - olap)) / L_j + 1))
+        averages = min(averages, N - L_j + 1)  # only N-L+1 distinct start positions exist
         navg_arr.append(averages)
         K_arr[j] = averages  # K must be the number of starts actually generated
 
@@ -338,6 +339,7 @@ def vectorized_ltf_plan(**args):
     r_map = fs / L_grid
     K_map = np.round((N - L_grid) / (xov * L_grid) + 1).astype(np.int64)
     L_map = L_grid.astype(np.int64)
+    K_map = np.minimum(K_map, N - L_map + 1)  # only N-L+1 distinct start positions exist
 
     # --- Phase 2: Walk the map ---
     f_out, r_out, L_out, K_out = [], [], [], []
@@ -471,6 +473,7 @@ def new_ltf_plan(**args):
 
     # --- 4. Finalize and Post-process (Vectorized) ---
     f, r, b, L, K = np.array(f), np.array(r), np.array(b), np.array(L), np.array(K)
+    K = np.minimum(K, N - L + 1)  # only N-L+1 distinct start positions exist
     nf = len(f)
     
     shift = np.divide(N - L, K - 1, out=np.zeros_like(f, dtype=float), where=K > 1)
